@@ -126,16 +126,22 @@ def dominating_guard(b, bb, spec):
         l = a["pl"]["l"]
         while l in copies:
             l = copies[l]
-        if b.local_name(l) != spec["local"]:
-            continue
+        if spec.get("local") is not None:
+            if b.local_name(l) != spec["local"]:
+                continue
+        else:
+            # the compared value is the (single) result of a call to <from_call>
+            defs = [t2 for _, t2 in b.calls() if t2.get("dest") and t2["dest"]["l"] == l and not t2["dest"]["p"]]
+            if len(defs) != 1 or not (b.callee_of(defs[0]) or "").endswith(spec["from_call"]):
+                continue
         # successor for truth value `edge`
         cases = {str(v): tgt for v, tgt in t["cases"]}
         want = cases.get("1" if spec["edge"] else "0", t["otherwise"])
         other = [x for x in set(list(cases.values()) + [t["otherwise"]]) if x != want]
         found.append((bl.idx, want, other))
         if want in dom[bb] and not any(o in dom[bb] for o in other):
-            return True, f"dominated by the {'true' if spec['edge'] else 'false'} edge of `{spec['op']}({spec['local']}, {spec['const']})` (bb{bl.idx} -> bb{want})"
-    return False, f"no dominating {'true' if spec['edge'] else 'false'} edge of `{spec['op']}({spec['local']}, {spec['const']})` (candidates {found})"
+            return True, f"dominated by the {'true' if spec['edge'] else 'false'} edge of `{spec['op']}({spec.get('local') or spec.get('from_call')}, {spec['const']})` (bb{bl.idx} -> bb{want})"
+    return False, f"no dominating {'true' if spec['edge'] else 'false'} edge of `{spec['op']}({spec.get('local') or spec.get('from_call')}, {spec['const']})` (candidates {found})"
 
 
 _premise_cache = {}
@@ -198,6 +204,13 @@ def classify(prog, R, rule, fns, reviewed, skip=lambda s: False, auto=None):
             have = sorted(c for c in callers.get(s_["fn"], ()) )
             if sorted(want) != have:
                 R.ob(rule, key, False, s_["at"], f"reviewed under the call contexts {sorted(want)} but the function is now called from {have}: the reason must be re-confirmed")
+                continue
+        if e.get("after_first"):
+            # "second and later unwraps of the same accessor": the site with ordinal 0 and the same description in
+            # the same function must dominate this one
+            first = [x for x in sites if x["fn"] == s_["fn"] and x["key"] == key.rsplit("|", 1)[0] + "|0"]
+            if not (first and first[0]["bb"] in b.dominators()[s_["bb"]] and first[0]["bb"] != s_["bb"]):
+                R.ob(rule, key, False, s_["at"], "reviewed as 'the first unwrap of the same accessor result dominates this one', which no longer holds")
                 continue
         if e.get("guard"):
             okg, whyg = dominating_guard(b, s_["bb"], e["guard"])
